@@ -1,2 +1,2 @@
-use lawcheck as hc;
+use aggcheck as hc;
 include!("runner.rs");
